@@ -3,9 +3,12 @@ CONSTANTS
   Conns = {1, 2, 3, 4, 5, 6, 7, 8, 9, 10}
   Kinds = {"server", "out", "in", "none"}
   Obfs = {FALSE, TRUE}
+  SlowListener = TRUE
   GuardAcceptFinish = TRUE
   CloseOnCancel = TRUE
   AbortConnectOnClose = TRUE
+  ConnectingReportGuarded = TRUE
+  ClosingReportGuarded = TRUE
   MaxLives = 20
   MaxCalls = 50
   MaxMsgs = 100000
